@@ -677,7 +677,10 @@ void run_fmgstart(const Value& plan, Result& r)
     // (The yardstick is the converged solution of the plain second-order discretisation: nested iteration with the FMG
     //  interpolation reaches that level; the extrapolated scheme's higher accuracy only comes with the iteration.  The
     //  documented default of one pre- and one post-smoothing step is required.)
-    if (o.fmg_iterations >= 1 && o.with_exact && o.extrapolation != 2 && o.pre >= 1 && o.post >= 1) {
+    //  As in C02 the comparison is only meaningful where the mesh resolves the solution: smooth problems, and the
+    //  across-origin closure only with R0 -> 0.)
+    if (o.fmg_iterations >= 1 && o.with_exact && o.extrapolation != 2 && o.pre >= 1 && o.post >= 1 &&
+        o.prob.problem != 3 && (o.dirbc || o.R0 <= 1e-5)) {
         SolverOpts o3     = o;
         o3.extrapolation  = 0;
         o3.max_iterations = 150;
